@@ -758,20 +758,43 @@ func indexTop(s string, sep byte) int {
 // name may be `(*T).m` or `pkg.f`.
 func parseSig(s string) (name string, params, results []CVar, err error) {
 	s = strings.TrimSpace(s)
-	// find the parameter list: the first '(' that follows the name. Names may start with "(*T)."
+	// find the parameter list: the first parenthesised group that is not a
+	// receiver group (a receiver group is followed by '.'), e.g. `bufio.(*Reader).Peek(b ...)`
 	i := 0
-	if strings.HasPrefix(s, "(") {
-		j := strings.Index(s, ")")
+	k := -1
+	for i < len(s) {
+		j := strings.Index(s[i:], "(")
 		if j < 0 {
-			return "", nil, nil, fmt.Errorf("bad receiver in %q", s)
+			break
 		}
-		i = j + 1
+		j += i
+		depth := 0
+		e := -1
+		for q := j; q < len(s); q++ {
+			if s[q] == '(' {
+				depth++
+			}
+			if s[q] == ')' {
+				depth--
+				if depth == 0 {
+					e = q
+					break
+				}
+			}
+		}
+		if e < 0 {
+			return "", nil, nil, fmt.Errorf("unbalanced parens in %q", s)
+		}
+		if e+1 < len(s) && s[e+1] == '.' {
+			i = e + 1
+			continue
+		}
+		k = j
+		break
 	}
-	k := strings.Index(s[i:], "(")
 	if k < 0 {
 		return strings.TrimSpace(s), nil, nil, nil
 	}
-	k += i
 	name = strings.TrimSpace(s[:k])
 	// matching paren
 	depth := 0
